@@ -482,8 +482,8 @@ fn stage_family(s: &pipelines::Stage) -> &'static str {
         Stage::S(Simple::Scan) => "scan",
         Stage::S(Simple::Take(_)) => "take",
         Stage::S(Simple::Skip(_)) => "skip",
-        Stage::ConcatAfter(..) | Stage::ConcatBefore(..) => "concat",
-        Stage::FlatMap(..) => "flatten",
+        Stage::ConcatAfter(..) | Stage::ConcatBefore(..) | Stage::ConcatSelf => "concat",
+        Stage::FlatMap(..) | Stage::FlatMapShared(..) => "flatten",
     }
 }
 
